@@ -412,3 +412,82 @@ Proof.
   apply Z.bits_inj'. intros i Hi. rewrite !low_testbit by lia.
   destruct (i <? 127) eqn:E; [|reflexivity]. replace (i <? lfsr_width bw) with true by lia. reflexivity.
 Qed.
+
+(* ---------------- waiting is stationary ----------------
+   In every state in which a unit waits for the user (nothing loaded yet, seed initialised, result
+   delivered) ANY number of idle cycles (load = req = 0, arbitrary seed input) leaves every register
+   unchanged, and the outputs (ready, rand) are constant -- no internal counter keeps running. *)
+Definition idle_in (i : Z * Z * Z) : Prop := fst (fst i) = 0 /\ snd (fst i) = 0.
+
+Definition tv_waiting (bw k : Z) (m : tv_state) : Prop :=
+  let '(abc, rand, counter, state) := m in
+  state = 0 \/ (state = 1 /\ counter = tv_init_cycles k) \/ (state = 2 /\ counter = tv_gen_cycles bw k - 1).
+Definition xo_waiting (bw : Z) (m : xo_state) : Prop :=
+  let '(s0, s1, rand, counter, state) := m in
+  state = 0 \/ (state = 1 /\ counter = xo_gen_cycles bw - 1).
+
+Lemma tv_idle_step bw k m i : idle_in i -> tv_waiting bw k m ->
+  m_tv_step bw k m i = m /\ m_tv_out bw k m i = m_tv_out bw k m (0, 0, 0).
+Proof.
+  destruct m as [[[abc rand] counter] state], i as [[load req] seed].
+  unfold idle_in. cbn [fst snd]. intros [-> ->] W. split; [|reflexivity].
+  unfold m_tv_step. change (negb (0 =? 0)) with false. cbv iota zeta.
+  destruct W as [->|[[-> ->]|[-> ->]]].
+  - reflexivity.
+  - change (1 =? 1) with true. cbv iota. rewrite Z.eqb_refl. reflexivity.
+  - change (2 =? 1) with false. change (2 =? 2) with true. cbv iota. rewrite Z.eqb_refl. reflexivity.
+Qed.
+
+Lemma xo_idle_step bw m i : idle_in i -> xo_waiting bw m ->
+  m_xo_step bw m i = m /\ m_xo_out bw m i = m_xo_out bw m (0, 0, 0).
+Proof.
+  destruct m as [[[[s0 s1] rand] counter] state], i as [[load req] seed].
+  unfold idle_in. cbn [fst snd]. intros [-> ->] W. split; [|reflexivity].
+  unfold m_xo_step. change (negb (0 =? 0)) with false. cbv iota zeta.
+  destruct W as [->|[-> ->]].
+  - reflexivity.
+  - change (1 =? 1) with true. cbv iota. rewrite Z.eqb_refl. reflexivity.
+Qed.
+
+Theorem tv_waiting_stationary bw k : forall ins m, Forall idle_in ins -> tv_waiting bw k m ->
+  fold_left (m_tv_step bw k) ins m = m /\
+  m_tv_run bw k m ins = repeat (m_tv_out bw k m (0, 0, 0)) (length ins).
+Proof.
+  induction ins as [|i ins IH]; intros m HF W; [split; reflexivity|].
+  pose proof (Forall_inv HF) as Hi. apply Forall_inv_tail in HF.
+  destruct (tv_idle_step bw k m i Hi W) as [Es Eo].
+  cbn [fold_left m_tv_run length repeat]. rewrite Es, Eo.
+  destruct (IH m HF W) as [E1 E2]. rewrite E1, E2. split; reflexivity.
+Qed.
+
+Theorem xo_waiting_stationary bw : forall ins m, Forall idle_in ins -> xo_waiting bw m ->
+  fold_left (m_xo_step bw) ins m = m /\
+  m_xo_run bw m ins = repeat (m_xo_out bw m (0, 0, 0)) (length ins).
+Proof.
+  induction ins as [|i ins IH]; intros m HF W; [split; reflexivity|].
+  pose proof (Forall_inv HF) as Hi. apply Forall_inv_tail in HF.
+  destruct (xo_idle_step bw m i Hi W) as [Es Eo].
+  cbn [fold_left m_xo_run length repeat]. rewrite Es, Eo.
+  destruct (IH m HF W) as [E1 E2]. rewrite E1, E2. split; reflexivity.
+Qed.
+
+Theorem lfsr_idle_stationary bw : forall ins lfsr, Forall idle_in ins ->
+  fold_left (m_lfsr_step bw) ins lfsr = lfsr /\
+  m_lfsr_run bw lfsr ins = repeat (m_lfsr_out bw lfsr) (length ins).
+Proof.
+  induction ins as [|[[load req] seed] ins IH]; intros lfsr HF; [split; reflexivity|].
+  pose proof (Forall_inv HF) as Hi. apply Forall_inv_tail in HF.
+  unfold idle_in in Hi. cbn [fst snd] in Hi. destruct Hi as [-> ->].
+  cbn [fold_left m_lfsr_run length repeat].
+  change (m_lfsr_step bw lfsr (0, 0, seed)) with lfsr.
+  destruct (IH lfsr HF) as [E1 E2]. rewrite E1, E2. split; reflexivity.
+Qed.
+
+(* the waiting states are the ones in which ready is raised (or nothing was ever requested) *)
+Lemma tv_ready_is_waiting bw k m : fst (m_tv_out bw k m (0, 0, 0)) = 1 -> tv_waiting bw k m.
+Proof.
+  destruct m as [[[abc rand] counter] state]. unfold m_tv_out, tv_waiting. cbn [fst].
+  change (0 =? 0) with true. cbn [andb].
+  destruct (Z.eqb_spec state 1), (Z.eqb_spec state 2), (Z.eqb_spec counter (tv_init_cycles k)),
+    (Z.eqb_spec counter (tv_gen_cycles bw k - 1)); cbn; intros; try discriminate; auto.
+Qed.
